@@ -2676,8 +2676,10 @@ class SequenceAndSetBase(base.ConstructedAsn1Type):
         mapping = {}
 
         for idx, value in enumerate(self._componentValues):
-            # Absent fields are not in the mapping
-            if value is noValue:
+            # Absent fields are not in the mapping. A component that has
+            # been read but never assigned holds a schema object: it is
+            # absent as well (encoders do not encode it)
+            if value is noValue or not value.isValue:
                 continue
 
             name = self.componentType.getNameByPosition(idx)
